@@ -790,10 +790,16 @@ static void run_restart(void)
             FAIL("restart-not-finished", "life %d of the process did not end (route %d)", k, restart_route);
             break;
         }
+        /* the usable stack must not dwindle from life to life (whatever its size is): more than 1 KiB lost since
+         * the first life is reported long before the frames leave the block */
         const unsigned char *base = procs[0].core.stack_base, *lo = procs[0].core.stack;
-        if (base == NULL || lo == NULL || base < lo + 32 * 1024) {
-            FAIL("restart-stack-shrinks", "after %d lives the top of the coroutine stack is %td bytes above its block's start",
-                 k + 1, base - lo);
+        static ptrdiff_t first_span;
+        if (k == 0) {
+            first_span = base - lo;
+        }
+        if (base == NULL || lo == NULL || (base - lo) < first_span - 1024) {
+            FAIL("restart-stack-shrinks", "after %d lives the top of the coroutine stack is %td bytes above its block's start, "
+                 "it was %td after the first life", k + 1, base - lo, first_span);
             break;
         }
     }
